@@ -126,7 +126,7 @@ struct carquet_writer {
     /* Current row group */
     carquet_row_group_writer_t* current_row_group;
     int64_t current_row_group_rows;
-    int64_t* column_values_written;  /* Values written per column in current row group */
+    int64_t* column_values_written;  /* Rows written per column in current row group */
 
     /* Completed row groups */
     row_group_info_t* row_groups;
@@ -255,8 +255,10 @@ static carquet_status_t add_column_internal(
         col->logical_type = *logical_type;
     }
 
-    /* Compute definition level based on repetition */
-    col->max_def_level = (repetition == CARQUET_REPETITION_OPTIONAL) ? 1 : 0;
+    /* Levels of a top-level leaf: optional and repeated both add a definition
+     * level (an empty list is "not defined"), repeated also adds a repetition
+     * level - the same rule the schema builder and the reader apply. */
+    col->max_def_level = (repetition != CARQUET_REPETITION_REQUIRED) ? 1 : 0;
     col->max_rep_level = (repetition == CARQUET_REPETITION_REPEATED) ? 1 : 0;
 
     writer->column_values_written[writer->num_columns] = 0;
@@ -319,15 +321,14 @@ static carquet_status_t flush_row_group(carquet_writer_t* writer) {
         return CARQUET_OK;
     }
 
-    /* A row group is a table: the (non-repeated) columns that were written
-     * must have received the same number of rows. Completing it otherwise
+    /* A row group is a table: the columns that were written must have
+     * received the same number of rows. Completing it otherwise
      * records num_rows from one column while another chunk holds a different
      * number of values. (Columns that received nothing at all are let
      * through: callers that only exercise the schema write such files.) */
     {
         int64_t rows = -1;
         for (int32_t i = 0; i < writer->num_columns; i++) {
-            if (writer->columns[i].max_rep_level > 0) continue;
             if (writer->column_values_written[i] == 0) continue;
             if (rows < 0) {
                 rows = writer->column_values_written[i];
@@ -692,11 +693,21 @@ carquet_status_t carquet_writer_write_batch(
         return writer_fail(writer, status);
     }
 
-    writer->column_values_written[column_index] += num_values;
+    /* Rows in this batch. For a repeated column num_values counts level
+     * entries; a row starts at repetition level 0. */
+    int64_t batch_rows = num_values;
+    if (writer->columns[column_index].max_rep_level > 0 && rep_levels) {
+        batch_rows = 0;
+        for (int64_t i = 0; i < num_values; i++) {
+            if (rep_levels[i] == 0) batch_rows++;
+        }
+    }
+
+    writer->column_values_written[column_index] += batch_rows;
 
     /* Track rows (use column 0 as reference) */
     if (column_index == 0) {
-        writer->current_row_group_rows += num_values;
+        writer->current_row_group_rows += batch_rows;
     }
 
     return CARQUET_OK;
